@@ -208,6 +208,13 @@ def run(ctx):
                 if op[0] != "k":
                     d = ft.derived_from(op[1][0])
                     ok = any(c.name == "std::fs::canonicalize" for c in d["calls"])
+                    if not ok:
+                        # through a private helper (`Target::canonical_or_given(path)`)
+                        from common import calls_transitively
+                        for c in d["calls"]:
+                            h = p.fns.get(c.resolved or "")
+                            if h is not None and h.crate == ft.crate and calls_transitively(p, h, "std::fs::canonicalize", depth=1):
+                                ok = True
         r.instance(C, "Target.path from fs::canonicalize", "ok" if ok else "violation", "%s:%d" % (ft.file, ft.line))
         if not ok:
             r.violation(C, "Target.path is not canonicalised", "two spellings of one file would be two targets", ["%s:%d" % (ft.file, ft.line)])
